@@ -18,7 +18,7 @@ func init() {
 		Rule: "reference-multiplexed streams (2..4 PIDs, PES bounded/unbounded salted with start codes, PAT/PMT, SI) under packet-level fault plans: every single-packet duplication (directly after the original " +
 			"and after intervening packets of other PIDs) and every single-packet deletion of every stream; random multi-fault plans (deletion bursts 1..15, duplicates, transport_error_indicator, " +
 			"discontinuity_indicator, adaptation-only insertions); all fault words of length 7 over {none,dup,delete,TEI,AF-only,DI} on a 2-PID micro stream; the output is compared with the fault-free " +
-			"output using the model's knowledge of which units each fault touched; distinct = hash of the faulted stream; non-trivial = at least one fault applied",
+			"output using the model's knowledge of which units each fault touched; plus units of 257..3500 packets behind and around gaps and duplicates (stage giant); distinct = hash of the faulted stream; non-trivial = at least one fault applied",
 		Assumptions: []string{"loss plans satisfy the property's precondition: < 16 packets lost in a row on a PID and a later payload packet of that PID survives (plans that do not are skipped and counted)",
 			"a packet with discontinuity_indicator is treated as preceded by a gap", "errors returned by NextData are not units", "on PSI PIDs a duplicate may cause a repeated delivery equal to its neighbour"},
 		Shards: 32,
@@ -30,6 +30,7 @@ func init() {
 			need(m, &out, "random_plans", 1000)
 			need(m, &out, "micro_words", 200000)
 			need(m, &out, "gap_burst_15", 5)
+			need(m, &out, "giant_unit_plans", 200)
 			need(m, &out, "dup_position_first", 100)
 			need(m, &out, "dup_position_middle", 100)
 			need(m, &out, "dup_position_last", 100)
@@ -281,6 +282,81 @@ func (cr *cleanRef) judge(c *mon.Ctx, stage string, idx int64, f []fkind, faulte
 	}
 }
 
+// giantFaultCase: one PID carries small units and units of hundreds to thousands of packets; whole small units in front of a giant
+// one are lost (the first packet that survives starts the giant unit), packets inside are lost or duplicated at the positions where
+// counts of 256 and 1024 packets are reached.
+func giantFaultCase(c *mon.Ctx, idx int64, r *rand.Rand) {
+	bigN := []int{1024, 1100, 257, 2048 + r.IntN(1500), 1023, 1025, 300}[int(idx)%7]
+	big2 := []int{257, 1030, 600}[int(idx/7)%3]
+	mk := func(serial, n int) *gen.Unit {
+		return gen.NewPESUnit(r, 0x100, serial, gen.PESOpts{DataLen: n, Unbounded: true, WithPTS: true})
+	}
+	us := []*gen.Unit{mk(1, 300+r.IntN(300)), mk(2, 20+r.IntN(140)), mk(3, bigN*184-14-r.IntN(150)), mk(4, 200+r.IntN(200)), mk(5, 10+r.IntN(150)),
+		mk(6, big2*184-14-r.IntN(150)), mk(7, 30+r.IntN(100)), mk(8, 400)}
+	var small []*gen.Unit
+	for k := 0; k < 6; k++ {
+		small = append(small, gen.NewPESUnit(r, 0x101, 20+k, gen.PESOpts{DataLen: 50 + r.IntN(900), WithPTS: k%2 == 0}))
+	}
+	counts := map[uint16]int{}
+	for _, u := range append(append([]*gen.Unit{}, us...), small...) {
+		u.PlanChunks(gen.RandomChunks(r, len(u.Payload), 0, 0, true))
+		counts[u.PID] += len(u.Plan)
+	}
+	s := gen.Mux(map[uint16][]*gen.Unit{0x100: us, 0x101: small}, gen.RandomOrder(r, counts, []uint16{0x100, 0x101}, nil), nil)
+	cr := newCleanRef(c, "giant", idx, s, &gen.Model{})
+	if cr == nil {
+		return
+	}
+	N := len(s.Packets)
+	var plans [][]fkind
+	plan := func(set func(f []fkind)) {
+		f := make([]fkind, N)
+		set(f)
+		plans = append(plans, f)
+	}
+	whole := func(f []fkind, u *gen.Unit) {
+		for _, k := range u.Pkts {
+			f[k] = fDel
+		}
+	}
+	at := func(u *gen.Unit, j int) int {
+		if j >= len(u.Pkts) {
+			j = len(u.Pkts) - 1
+		}
+		return u.Pkts[j]
+	}
+	plan(func(f []fkind) { whole(f, us[1]) })                      // the first survivor starts the giant unit
+	plan(func(f []fkind) { whole(f, us[1]); whole(f, us[4]) })     // ... both giant units
+	plan(func(f []fkind) { f[us[0].LastPkt] = fDel })              // the end of a unit is lost, the next one is small, the giant one follows
+	plan(func(f []fkind) { f[us[3].LastPkt] = fDel; whole(f, us[4]) })
+	plan(func(f []fkind) { whole(f, us[1]); f[at(us[2], 1023)] = fDup; f[at(us[2], 255)] = fDup })
+	plan(func(f []fkind) { whole(f, us[6]) })
+	for _, j := range []int{1, 255, 256, 257, 1023, 1024, 1 << 20} {
+		plan(func(f []fkind) { f[at(us[2], j)] = fDel })
+		plan(func(f []fkind) { f[at(us[2], j)] = fDup })
+		plan(func(f []fkind) { f[at(us[5], j)] = fDup; f[at(us[2], 0)] = fDup })
+	}
+	plan(func(f []fkind) { f[at(us[2], 0)] = fTEI })
+	plan(func(f []fkind) { f[at(us[2], 0)] = fAFOnly; whole(f, us[1]) })
+	for q := 0; q < 6; q++ {
+		plan(func(f []fkind) {
+			for x := 0; x < 1+r.IntN(3); x++ {
+				f[r.IntN(N)] = []fkind{fDel, fDup, fDel, fTEI}[r.IntN(4)]
+			}
+		})
+	}
+	for q, f := range plans {
+		if !planOK(s, f) {
+			c.Count("plans_skipped_precondition")
+			continue
+		}
+		cr.judge(c, "giant", idx, f, applyFaults(s.Packets, f, nil), "giant")
+		c.Count("giant_unit_plans")
+		c.Case(mon.HashStr("giant", fmt.Sprint(idx, q)), true)
+	}
+	c.Max("largest_unit_behind_a_gap_packets", int64(len(us[2].Pkts)))
+}
+
 // unitFaultPos describes where (if anywhere) a duplicate sits inside the unit.
 func unitFaultPos(s *gen.Stream, f []fkind, u *gen.Unit) string {
 	for j, k := range u.Pkts {
@@ -456,6 +532,12 @@ func runC06(c *mon.Ctx) {
 		}
 		if i < 2 {
 			c.Sample("streams", map[string]any{"packets": N, "pids": m.PIDs, "plans": "all single dups (immediate+delayed), all single deletions, random multi-fault plans"})
+		}
+	}
+	// giant units: units of 257, 1023 .. 3500 packets behind a gap, with a gap or a duplicate inside, and before one
+	for i := int64(0); i < c.Pick(12, 240); i++ {
+		if c.Mine("giant", i) {
+			giantFaultCase(c, i, c.Rng("giant", i))
 		}
 	}
 	// long streams with bursts up to 15 (needs ≥17 packets on one PID)
